@@ -1,8 +1,9 @@
 #!/bin/sh
-# Cross-detection matrix: every registered check against every seeded change (informational; slow).
+# Cross-detection matrix: every registered check against seeded changes (informational; slow).
+# usage: selftest/matrix.sh [file with one seeded id per line]   (default: all)
 cd "$(dirname "$0")/.." || exit 2
 ALL=$(tr '\n' ',' < rvmon/props/REGISTERED | sed 's/,$//')
-for d in seeded/*/; do
-  id=$(basename "$d")
+if [ -n "$1" ]; then IDS=$(cat "$1"); else IDS=$(ls seeded); fi
+for id in $IDS; do
   VERIF_JOBS=${VERIF_JOBS:-4} selftest/run_seeded.py check "$id" quick --also "$ALL"
 done
